@@ -270,7 +270,7 @@ AUDIT_SCOPE = re.compile(
     r"^(sync::(RecordIdentifier|Record|Entry|SignedEntry|EntrySignature|Capability)::|<sync::(RecordIdentifier|Record|Entry|SignedEntry|EntrySignature|Capability) as |"
     r"heads::AuthorHeads::decode|ticket::|<ticket::|<store::FilterKind as std::str::FromStr>|net::codec::|<net::codec::|net::handle_connection|net::connect_and_sync|"
     r"sync::Replica::<'a, I>::(sync_process_message|insert_remote_entry|insert_entry)|ranger::Store::process_message|ranger::Store::put|sync::validate_entry|"
-    r"engine::gossip::|engine::live::LiveActor::<D>::on_sync_report|keys::|<keys::|store::fs::into_entry|store::fs::get_exact|<store::fs::StoreInstance)")
+    r"engine::gossip::|engine::live::LiveActor::<D>::on_sync_report|keys::|<keys::|store::fs::into_entry|store::fs::get_exact|<store::fs::StoreInstance|store::fs::parse_capability|store::fs::Store::(list_namespaces|load_replica_info|get_author|list_authors|get_download_policy|get_sync_peers|import_namespace|get_latest_for_each_author|has_news_for_us|content_hashes)|<store::fs::(ContentHashesIterator|LatestIterator)|store::fs::(query|ranges)::|<store::fs::(query|ranges)::)")
 
 # table lines: (function regex, site class, callee regex) -> reason.  One named site each.
 TABLE = [
